@@ -11,6 +11,21 @@ GUARD = 'ADAPTAGRAMS_VERIF'
 NPROC = int(os.environ.get('VERIF_JOBS', '16'))
 
 
+import fcntl, contextlib
+
+
+@contextlib.contextmanager
+def flock(name):
+    os.makedirs(os.path.join(BUILD, 'locks'), exist_ok=True)
+    f = open(os.path.join(BUILD, 'locks', name + '.lock'), 'w')
+    try:
+        fcntl.flock(f, fcntl.LOCK_EX)
+        yield
+    finally:
+        fcntl.flock(f, fcntl.LOCK_UN)
+        f.close()
+
+
 def log(*a):
     print(*a, file=sys.stderr, flush=True)
 
@@ -101,6 +116,11 @@ def lib_headers(lib):
 
 
 def build_lib(lib, flavor='plain'):
+    with flock('lib-%s-%s' % (lib, flavor)):
+        return _build_lib(lib, flavor)
+
+
+def _build_lib(lib, flavor='plain'):
     """compile cola/<lib>/*.cpp from the current working tree into build/obj/<lib>-<flavor>-<hash>/lib.a.
     flavor: plain (-O1 -g), asan (address+undefined), each with -DADAPTAGRAMS_VERIF and USE_ASSERT_EXCEPTIONS
     per DESIGN 2; 'noassertexc' flavors keep abort()-style asserts."""
@@ -141,6 +161,11 @@ def build_lib(lib, flavor='plain'):
 
 
 def build_harness(name, libs, flavor='plain', extra_flags=(), extra_srcs=()):
+    with flock('harness-%s-%s' % (name, flavor)):
+        return _build_harness(name, libs, flavor, extra_flags, extra_srcs)
+
+
+def _build_harness(name, libs, flavor='plain', extra_flags=(), extra_srcs=()):
     """compile /verif/harness/<name>.cpp against the given libs (built from /repo now)."""
     ars = [build_lib(l, flavor) for l in libs]
     src = os.path.join(VERIF, 'harness', name + '.cpp')
@@ -172,13 +197,21 @@ def build_harness(name, libs, flavor='plain', extra_flags=(), extra_srcs=()):
 # ------------------------------------------------------------------------------------- Coq
 def coq_regen(modules=None):
     """run cpp2v for the given Gen modules (all when None). Returns (ok, meta dict, messages)."""
-    cmd = ['python3', os.path.join(VERIF, 'tools', 'cpp2v.py'), os.path.join(VERIF, 'tools', 'cpp2v_spec.json'),
+    with flock('coq'):
+        return _coq_regen(modules)
+
+
+def _coq_regen(modules=None):
+    cmd = ['python3', os.path.join(VERIF, 'tools', 'cpp2v.py'), os.path.join(VERIF, 'tools', 'cpp2v_specs'),
            os.path.join(COQ, 'theories', 'Gen'), '--repo', REPO]
     if modules:
         cmd += ['--only', ','.join(modules)]
     rc, out, err, dt = sh(cmd, timeout=600)
-    metaf = os.path.join(COQ, 'theories', 'Gen', 'cpp2v_meta.json' if not modules else 'cpp2v_meta_%s.json' % '_'.join(sorted(modules)))
-    meta = json.load(open(metaf)) if os.path.exists(metaf) else {}
+    meta = {}
+    for mf in glob.glob(os.path.join(COQ, 'theories', 'Gen', 'cpp2v_meta_*.json')):
+        mname = os.path.basename(mf)[len('cpp2v_meta_'):-5]
+        if modules is None or mname in modules:
+            meta[mname] = json.load(open(mf))
     return rc == 0, meta, (out + err).strip()
 
 
@@ -195,9 +228,10 @@ def coq_project():
 
 def coq_make(targets, timeout=1500):
     """make -k the given .vo targets. returns (ok, log text, dt)"""
-    coq_project()
-    cmd = ['make', '-k', '-j%d' % NPROC] + targets
-    rc, out, err, dt = sh(cmd, cwd=COQ, timeout=timeout)
+    with flock('coq'):
+        coq_project()
+        cmd = ['make', '-k', '-j%d' % NPROC] + targets
+        rc, out, err, dt = sh(cmd, cwd=COQ, timeout=timeout)
     return rc == 0, out + '\n' + err, dt
 
 
@@ -266,12 +300,18 @@ def forbidden_scan(vfiles):
 
 def print_assumptions(propfile):
     """re-run coqc on Properties/<id>.v to capture its Print Assumptions output"""
-    rc, out, err, dt = sh(['coqc', '-Q', 'theories', 'Adapt', propfile], cwd=COQ, timeout=600)
+    with flock('coq'):
+        rc, out, err, dt = sh(['coqc', '-Q', 'theories', 'Adapt', propfile], cwd=COQ, timeout=600)
     return rc, out, err
 
 
 # ------------------------------------------------------------------------------------- OCaml extraction
 def ocaml_build(name, extract_v, driver_ml, model_ml):
+    with flock('ocaml-' + name):
+        return _ocaml_build(name, extract_v, driver_ml, model_ml)
+
+
+def _ocaml_build(name, extract_v, driver_ml, model_ml):
     """coqc the extraction file in build/extract/<name>, compile the driver. returns exe path."""
     d = os.path.join(BUILD, 'extract', name)
     os.makedirs(d, exist_ok=True)
